@@ -71,6 +71,28 @@ def run(chk, facts):
     first = {}
     for s in sinks:
         first.setdefault((s["fn"], s["origin"], s["kind"]), s)
+    # a consumer that is not in the table under its exact key is looked up once more under a coarser one: the container *type* without the
+    # field it was read from, and `first` / `last` / `next` (outside a loop) / `nth` as one kind - "one member, whichever the hash order
+    # puts there". (`Vec::from_iter(&set).first()` and `set.iter().next()` are the same member; a reviewed reason of the form "every member
+    # answers the same" or "diagnostic text only" does not depend on which one it is.) Counts are compared per coarse key.
+    PICK = {"first", "last", "next", "next_back", "nth"}
+
+    def coarse(key_):
+        fn_, org_, kind_ = key_
+        return (fn_, org_.split(" .")[0], "pick-one" if kind_ in PICK else kind_)
+    reviewed_coarse, cnt_coarse = {}, Counter()
+    for key_, r_ in reviewed.items():
+        c_ = coarse(key_)
+        if c_ in reviewed_coarse:
+            m_ = dict(reviewed_coarse[c_])
+            m_["count"] += r_["count"]
+            if r_["disposition"] == "finding":
+                m_.update({"disposition": "finding", "finding": r_["finding"], "reason": r_["reason"]})
+            reviewed_coarse[c_] = m_
+        else:
+            reviewed_coarse[c_] = dict(r_)
+    for key_, n_ in cnt.items():
+        cnt_coarse[coarse(key_)] += n_
     n_sources = 0
     for b in mir.fns.values():
         for bb, t in b.calls():
@@ -82,6 +104,11 @@ def run(chk, facts):
         s = first[key]
         loc = f"{s['file']}:{s['line']}"
         r = reviewed.get(key)
+        if r is None:
+            rc_ = reviewed_coarse.get(coarse(key))
+            if rc_ is not None and rc_["disposition"] != "finding" and cnt_coarse[coarse(key)] <= rc_["count"]:
+                chk.ob("R-C12-1", f"{fn}|{org}|{kind}", True, f"{fn}: `{kind}` over `{org}` - reviewed benign as `{coarse(key)[2]}` over `{coarse(key)[1]}`: {rc_['reason']}", loc)
+                continue
         if r is None:
             chk.ob("R-C12-1", f"{fn}|{org}|{kind}", False,
                    f"{fn}: the iteration order of `{org}` reaches `{kind}` - an order-sensitive consumer that is not reviewed "
